@@ -3,6 +3,7 @@ package websocket
 import (
 	"context"
 	"crypto/ecdsa"
+	"strings"
 	"time"
 
 	"github.com/aukilabs/go-tooling/pkg/errors"
@@ -57,7 +58,9 @@ type RealtimeHandler struct {
 
 func (h *RealtimeHandler) HandleConnect(conn *websocket.Conn) {
 	req := conn.Request()
-	h.clientID = req.Header.Get(httpcmn.HeaderPosemeshClientID)
+	// The client id ends up in protobuf messages (the signed latency report),
+	// which hold valid UTF-8 only; a header can hold any bytes.
+	h.clientID = strings.ToValidUTF8(req.Header.Get(httpcmn.HeaderPosemeshClientID), "\uFFFD")
 	h.appKey = httpcmn.GetAppKeyFromHagallUserToken(httpcmn.GetUserTokenFromHTTPRequest(req))
 
 	h.conn = conn
